@@ -71,8 +71,36 @@ def case_strategy(draw):
     case = {"world": wd, "ops": ops.gen_history(src, info, max_ops=8, bad_rate=(1, 10)), "probe": _probe(src, info)}
     if touch:
         case["touch"] = touch
+    if src.chance(1, 4):
+        # internal aliasing: one object of the receiver is (in place) put under a second attribute of the same receiver - the
+        # copy must still share nothing with the original, however the copier walks the two references
+        attrs = info.attrs()
+        pairs = []
+        for sname, a in attrs.items():
+            if a["type"][0] != "spec":
+                continue
+            for cname_, b in attrs.items():
+                if grammar.is_collection(b["type"]) and grammar.elem_type(b["type"]) == a["type"] and b["type"][0] in ("list", "dict"):
+                    pairs.append((sname, cname_))
+        if pairs:
+            sname, coll = src.pick(pairs)
+            if src.chance(1, 2):
+                op = {"t": "call", "m": f"with_{sname}", "a": [["$same", coll, src.choice(3)]], "k": {"_inplace": True}}
+            else:
+                args = [["$same", sname]]
+                if attrs[coll]["type"][0] == "dict":
+                    args = [src.pick(grammar.KEYS)] + args
+                op = {"t": "call", "m": f"with_{grammar.SINGULAR[coll]}", "a": args, "k": {"_inplace": True}}
+            case["ops"].append(op)
+            if attrs[sname].get("do_not_copy") or attrs[coll].get("do_not_copy"):
+                # the object now sits under a do_not_copy attribute (shared with every copy, by declaration) AND under a regular
+                # one of the same receiver: what is edited through the shared reference shows in the receiver's regular
+                # attribute by the receiver's own aliasing - only the identity oracle applies
+                case["no_follow"] = True
     n = src.choice(7)
     case["follow"] = [ops.gen_op(src, info, inplace=True, bad_rate=(1, 10), allow=("scalar", "element", "top", "nested")) for _ in range(n)]
+    if case.pop("no_follow", False):
+        case["follow"] = []
     case["side"] = src.pick(["result", "receiver"])
     if src.chance(1, 6):
         # a constructor keyword given as the exported UNCHANGED sentinel ("leave as it is") is an omitted keyword: the
